@@ -188,6 +188,24 @@ class Loader:
             setattr(self.modules[parent], leaf, mod)
         return mod
 
+    def registered(self):
+        """Context manager: expose the loaded modules through sys.modules (real pickling needs importable classes)."""
+        import contextlib
+
+        @contextlib.contextmanager
+        def cm():
+            saved = {k: sys.modules.get(k) for k in self.modules}
+            sys.modules.update(self.modules)
+            try:
+                yield self
+            finally:
+                for k, v in saved.items():
+                    if v is None:
+                        sys.modules.pop(k, None)
+                    else:
+                        sys.modules[k] = v
+        return cm()
+
     def get(self, dotted):
         """'sedfitter.fitting_routines:linear_regression' -> object."""
         modname, _, attr = dotted.partition(':')
